@@ -343,7 +343,7 @@ def _sane(fn, **mins):
 
 
 SPECS = {
-    "C02": _sane(_with_e1(spec_c02, "C02", 100, 1500, max_ops=2), outcome__design=500, finds_completed_with_design=10),
+    "C02": _sane(_with_e1(spec_c02, "C02", 160, 2000, max_ops=2), outcome__design=500, finds_completed_with_design=10),
     "C05": _sane(_with_e1(spec_c05, "C05", 100, 1500, max_ops=3), outcome__design=500, c05_designs_checked=10),
     "C20": _sane(_with_e1(spec_c20, "C20", 100, 1500, max_ops=3), flow_records_checked=1000, twin_evaluations=5),
     "C18": _sane(spec_c18, tag__design__ok=3, tag__validate_only__valid=3, tag__validate_only__invalid=3),
